@@ -215,5 +215,5 @@ e_gp!(e_gp_get_protocol_features_noreply, 1, 2);
 e_gp!(e_gp_get_protocol_features_badflag, 1, 3);
 // @harness props=C01,C06,C10 tier=quick reach=off timeout=900 mem=24 bound="GpuBackend::update_dmabuf_scanout (empty ack reply): all five u32 fields, 0..=1 descriptors on the reply" stubs="raw_recvmsg/raw_sendmsg (+lock probe), Mutex::lock (acquisition counter, self-deadlock detector), close, OwnedFd::drop, handle_alloc_error, fmt::format"
 e_gp!(e_gp_dmabuf_update, 10, 0);
-// @harness props=C06,C10 tier=thorough reach=off timeout=900 mem=24 bound="GpuBackend::update_dmabuf_scanout answered with another request's code" stubs="raw_recvmsg/raw_sendmsg (+lock probe), Mutex::lock (acquisition counter, self-deadlock detector), close, OwnedFd::drop, handle_alloc_error, fmt::format"
+// @harness props=C06,C10 tier=quick reach=off timeout=900 mem=24 bound="GpuBackend::update_dmabuf_scanout answered with another request's code" stubs="raw_recvmsg/raw_sendmsg (+lock probe), Mutex::lock (acquisition counter, self-deadlock detector), close, OwnedFd::drop, handle_alloc_error, fmt::format"
 e_gp!(e_gp_dmabuf_update_foreign, 10, 1);
